@@ -272,7 +272,7 @@ def instrument_pops(sim, pops, limit, w=None):
     clock = sim._clock
 
     def pop():
-        if len(pops) >= limit:
+        if len(pops) >= getattr(heap, "_verif_limit", limit):
             raise Watchdog()
         ev = orig()
         if w is not None:
@@ -428,3 +428,142 @@ def enc_case(script, obs):
 
 CASE_TYPE = "nat * (Z * option Z * program * list prespec * run_obs)"
 IMPORTS = "From HS Require Import Base.Prelude Engine.Engine Engine.Script."
+
+
+# --------------------------------------------------------------------------- control sessions (C04)
+def gen_cmds(rng):
+    cmds = []
+    if rng.random() < 0.6:
+        cmds.append(["pause"])
+    for _ in range(rng.randint(0, 2)):
+        cmds.append(gen_bp(rng))
+    cmds.append(["start"])
+    for _ in range(rng.randint(0, 6)):
+        k = rng.random()
+        if k < 0.4:
+            cmds.append(["step", rng.choice([1, 1, 2, 3, 5, 0])])
+        elif k < 0.6:
+            cmds.append(["resume"])
+        elif k < 0.75:
+            cmds.append(["pause"])
+        elif k < 0.9:
+            cmds.append(gen_bp(rng))
+        else:
+            cmds.append(["clear"])
+    for _ in range(4):
+        cmds.append(["resume"])
+    return cmds
+
+
+def gen_bp(rng):
+    k = rng.random()
+    one = rng.random() < 0.5
+    if k < 0.35:
+        return ["bp", "time", rng.choice([0, 1, 1000, 500_000_000, 1_000_000_000, 2_000_000_000]), one]
+    if k < 0.7:
+        return ["bp", "count", rng.randint(0, 8), one]
+    return ["bp", "type", rng.randrange(4), one]
+
+
+def run_session(script, cmds, hooks=True):
+    from happysimulator.core.control.breakpoints import EventCountBreakpoint, EventTypeBreakpoint, TimeBreakpoint
+    from happysimulator.core.simulation import Simulation
+    from happysimulator.core.temporal import Instant
+    from hsverif.util import Timeout, time_limit
+
+    w = build_world(script)
+    sim = Simulation(start_time=Instant(script["start"]),
+                     end_time=None if script["end"] is None else Instant(script["end"]),
+                     entities=list(w.entities))
+    for ps in script["pre"]:
+        ev = w.mk_event(0, dict(ps["emit"], dt=ps["time"]))
+        sim.schedule(ev)
+        if ps["cancel"]:
+            ev.cancel()
+    pops = []
+    w.sim_clock[0] = sim._clock
+    w.prerun[0] = False
+    instrument_pops(sim, pops, 10 ** 9, w)
+    ctl = sim.control
+    hook_log = []
+    if hooks:
+        ctl.on_event(lambda e: hook_log.append(["event", e.time.nanoseconds, e._sort_index]))
+        ctl.on_time_advance(lambda t: hook_log.append(["time", t.nanoseconds]))
+    started, failed, snaps, done_cmds = False, False, [], []
+    for cmd in cmds:
+        before = len(pops)
+        before_ulog, before_hook = len(w.ulog), len(hook_log)
+        try:
+            with time_limit(10):
+                if cmd[0] == "pause":
+                    ctl.pause()
+                elif cmd[0] == "start":
+                    if not started and not failed:
+                        started = True
+                        limit_pops(sim, pops, before + script["fuel"])
+                        sim.run()
+                elif cmd[0] == "step":
+                    if not failed:
+                        limit_pops(sim, pops, before + script["fuel"])
+                        ctl.step(cmd[1])
+                elif cmd[0] == "resume":
+                    if not failed:
+                        limit_pops(sim, pops, before + script["fuel"])
+                        ctl.resume()
+                elif cmd[0] == "clear":
+                    ctl.clear_breakpoints()
+                elif cmd[0] == "bp":
+                    if cmd[1] == "time":
+                        ctl.add_breakpoint(TimeBreakpoint(time=Instant(cmd[2]), one_shot=cmd[3]))
+                    elif cmd[1] == "count":
+                        ctl.add_breakpoint(EventCountBreakpoint(count=cmd[2], one_shot=cmd[3]))
+                    else:
+                        ctl.add_breakpoint(EventTypeBreakpoint(event_type=tname(cmd[2]), one_shot=cmd[3]))
+        except Watchdog:
+            del pops[before:], w.ulog[before_ulog:], hook_log[before_hook:]
+            break                      # out of budget: the session is cut before this command
+        except Timeout:
+            return dict(status=3)
+        except (RuntimeError, ValueError) as e:
+            msg = str(e)
+            if not (msg.startswith("Cannot") or msg.startswith("step count")):
+                failed = True          # a handler raised inside the run
+        done_cmds.append(cmd)
+        phase = 3 if failed else (0 if not started else (1 if sim._is_paused else (2 if not sim._is_running else 1)))
+        snaps.append([phase, sim._clock.now.nanoseconds, sim._events_processed, sim._event_heap.size(),
+                      len(ctl._breakpoints)])
+    return dict(status=0, cmds=done_cmds, snaps=snaps, pops=pops, ulog=w.ulog, hook_log=hook_log,
+                created=w.created, cancelled_ever=[w.seq_of[id(ev)] for ev in w.keep if id(ev) in w.seq_of and ev._cancelled],
+                rlog=w.rlog)
+
+
+def limit_pops(sim, pops, limit):
+    sim._event_heap._verif_limit = limit
+
+
+def enc_cmd(c):
+    if c[0] == "pause":
+        return Raw("CmdPause")
+    if c[0] == "start":
+        return Raw("CmdStart")
+    if c[0] == "step":
+        return Ctor("CmdStep", c[1])
+    if c[0] == "resume":
+        return Raw("CmdResume")
+    if c[0] == "clear":
+        return Raw("CmdClearBps")
+    kind = {"time": "BTime", "count": "BCount", "type": "BType"}[c[1]]
+    return Ctor("CmdAddBp", Ctor(kind, c[2], bool(c[3])))
+
+
+def enc_session_case(script, obs):
+    end = None if script["end"] is None else SomeV(script["end"])
+    dels = [(p[0], p[1], p[2], p[3]) for p in obs["pops"] if p[4] == "delivered"]
+    return term((Nat(script["fuel"] + 1), (script["start"], end, enc_prog(script["prog"]), enc_pre(script["pre"]),
+                                           [enc_cmd(c) for c in obs["cmds"]],
+                                           ([tuple(s) for s in obs["snaps"]], dels, enc_ulog(obs["ulog"])))))
+
+
+SESSION_CASE_TYPE = ("nat * (Z * option Z * program * list prespec * list cmd * "
+                     "(list (Z * Z * Z * Z * Z) * list obs_delivery * list uentry))")
+SESSION_IMPORTS = "From HS Require Import Base.Prelude Engine.Engine Engine.Script Engine.Control Engine.ControlScript."
